@@ -2015,3 +2015,322 @@ Proof.
       * unfold cs in E. rewrite (phys_app pre c rest x) in E by (auto; lia). inversion E; subst b. unfold HDR in *. lia.
     + lia.
 Qed.
+
+(* ------------------------------------------------------------------ the element loops of ADF_Write_Data *)
+Lemma over_elems_ext ps : forall (f g : Z -> option Z) fb data x, f x = g x -> over_elems f ps fb data x = over_elems g ps fb data x.
+Proof.
+  induction ps as [|p r IH]; intros f g fb data x H; cbn [over_elems]; auto.
+  apply IH. unfold over. destruct ((p * fb <=? x) && (x <? p * fb + lenZ (firstn (Z.to_nat fb) data))); auto.
+Qed.
+
+Definition in_data (cs : list (ptr * ptr)) (y : Z) : Prop := exists c, In c cs /\ cstart c + HDR <= y < cend c.
+
+Lemma wmulti_ok cs fb : 0 < fb -> Forall (fun c => csize c mod fb = 0) cs -> pdisj (map ext cs) ->
+  forall ps lk (data : list Z) d, Forall (chunk_at d) cs -> lk_ok cs lk -> StronglySorted Z.lt ps ->
+  Forall (fun p => l_past lk <= p * fb /\ p * fb + fb <= cap_of cs) ps -> lenZ data = lenZ ps * fb ->
+  exists d', wmulti ps lk fb data d = (Ok tt, d') /\ Forall (chunk_at d') cs /\ frame d d' (in_data cs) /\
+    (forall x, 0 <= x -> absb d' cs x = over_elems (absb d cs) ps fb data x).
+Proof.
+  intros Hfb Dv PD. induction ps as [|p r IH]; intros lk data d C L S F Hd.
+  - exists d. split; [reflexivity|]. split; [exact C|]. split; [apply frame_refl|reflexivity].
+  - assert (P : sizes_pos cs) by (apply (Forall_chunk_sizes d); auto).
+    inversion S as [|? ? Sr Hlt]; subst. inversion F as [|? ? [Hp1 Hp2] Fr]; subst.
+    destruct L as (pre & E & Epast & Esize). cbn [wmulti]. rewrite Epast, Esize.
+    destruct (lookup_ok cs P (l_rest lk) (l_cur lk) pre (p * fb) E) as (lk1 & R & L1 & B1); [lia|].
+    rewrite R. cbn [bindO]. destruct L1 as (pre1 & E1 & Epast1 & Esize1).
+    assert (Ppre1 : sizes_pos pre1) by (unfold sizes_pos in *; rewrite E1 in P; apply Forall_app in P; tauto).
+    assert (Hc1 : chunk_at d (l_cur lk1)) by (rewrite Forall_forall in C; apply C; rewrite E1; apply in_app_mid).
+    destruct Hc1 as (G1 & G2 & S1 & _). destruct (gp_nonneg _ G1) as (Hb & Ho & Ha). destruct (gp_nonneg _ G2) as (_ & _ & Ha2).
+    pose proof (csize_addr (l_cur lk1)) as Ecs. unfold cstart, cend, HDR in Ecs.
+    pose proof (addr_unfold (fst (l_cur lk1))) as Ea. assert (P60 : 2 ^ 44 + 2 ^ 44 < 2 ^ 60) by reflexivity.
+    unfold elem_ptr, TAG_SIZE, DPS.
+    destruct (adjust_gt_ok' (fst (fst (l_cur lk1))) (snd (fst (l_cur lk1)) + (4 + 12) + (p * fb - l_past lk1))) as (rb & Rb & Arb & _);
+      try lia.
+    rewrite Rb. cbn [bindO]. rewrite lenZ_cons in Hd. pose proof (lenZ_nonneg r) as Hr0.
+    assert (Lf : lenZ (firstn (Z.to_nat fb) data) = fb) by (apply lenZ_firstn_ge; nia).
+    assert (Fit : p * fb + fb <= cap_of pre1 + csize (l_cur lk1)).
+    { rewrite <- Epast1, <- Esize1. apply elem_fits; auto.
+      - rewrite Epast1. apply divide_cap; auto. rewrite E1 in Dv. apply Forall_app in Dv. tauto.
+      - rewrite Esize1. apply Z.mod_divide; [lia|]. rewrite Forall_forall in Dv. apply Dv. rewrite E1. apply in_app_mid. }
+    pose proof (elem_write d pre1 (l_cur lk1) (l_rest lk1) (p * fb) (firstn (Z.to_nat fb) data)) as EW.
+    cbn zeta in EW. rewrite <- E1 in EW. destruct EW as (C1 & F1 & A1); auto; try lia.
+    assert (Eaddr : addr rb = cstart (l_cur lk1) + HDR + (p * fb - cap_of pre1)) by (unfold cstart, HDR; lia).
+    unfold wr. rewrite Eaddr.
+    set (d1 := dput d (cstart (l_cur lk1) + HDR + (p * fb - cap_of pre1)) (firstn (Z.to_nat fb) data)) in *.
+    destruct (IH lk1 (skipn (Z.to_nat fb) data) d1 C1) as (d' & R' & C' & F' & A'); auto.
+    + exists pre1. auto.
+    + rewrite Forall_forall in *. intros q Hq. specialize (Fr q Hq). specialize (Hlt q Hq). split; [nia|lia].
+    + rewrite lenZ_skipn by nia. lia.
+    + exists d'. split; [exact R'|]. split; [exact C'|]. split.
+      * eapply frame_trans; [exact F1|exact F'| |]; intros y Hy; auto.
+        exists (l_cur lk1). split; [rewrite E1; apply in_app_mid|exact Hy].
+      * intros x Hx. rewrite A' by auto. cbn [over_elems]. apply over_elems_ext. apply A1. exact Hx.
+Qed.
+
+Lemma wsingle_ok c fb : 0 < fb ->
+  forall ps prev bo (data : list Z) d, chunk_at d c -> StronglySorted Z.lt ps ->
+  Forall (fun p => prev <= p /\ p * fb + fb <= csize c) ps -> 0 <= prev -> 0 <= fst bo -> 0 <= snd bo ->
+  addr bo = cstart c + HDR + prev * fb -> lenZ data = lenZ ps * fb ->
+  exists d', wsingle ps prev bo fb data d = (Ok tt, d') /\ chunk_at d' c /\ frame d d' (in_data [c]) /\
+    (forall x, 0 <= x -> absb d' [c] x = over_elems (absb d [c]) ps fb data x).
+Proof.
+  intros Hfb. induction ps as [|p r IH]; intros prev bo data d Hc S F Hprev Hbb Hbo Abo Hd.
+  - exists d. split; [reflexivity|]. split; [exact Hc|]. split; [apply frame_refl|reflexivity].
+  - inversion S as [|? ? Sr Hlt]; subst. inversion F as [|? ? [Hp1 Hp2] Fr]; subst.
+    pose proof Hc as (G1 & G2 & S1 & _). destruct (gp_nonneg _ G1) as (Hb & Ho & Ha). destruct (gp_nonneg _ G2) as (_ & _ & Ha2).
+    pose proof (csize_addr c) as Ecs. unfold cstart, cend, HDR in *. assert (P60 : 2 ^ 44 + 2 ^ 44 < 2 ^ 60) by reflexivity.
+    cbn [wsingle]. pose proof (addr_unfold bo) as Ebo.
+    destruct (adjust_gt_ok' (fst bo) (snd bo + (p - prev) * fb)) as (bo1 & R1 & A1 & N1 & N2); try nia.
+    rewrite R1. cbn [bindO]. rewrite lenZ_cons in Hd. pose proof (lenZ_nonneg r) as Hr0.
+    assert (Lf : lenZ (firstn (Z.to_nat fb) data) = fb) by (apply lenZ_firstn_ge; nia).
+    pose proof (elem_write d [] c [] (p * fb) (firstn (Z.to_nat fb) data)) as EW. cbn zeta in EW. cbn [app cap_of fold_right] in EW.
+    destruct EW as (C1 & F1 & E1); auto; try nia.
+    { cbn [map pdisj]. split; [constructor|exact Logic.I]. }
+    inversion C1 as [|? ? Hc1 _]; subst.
+    assert (Eaddr : addr bo1 = addr (fst c) + 16 + (p * fb - 0)) by nia.
+    unfold wr. rewrite Eaddr. unfold cstart, HDR in *.
+    set (d1 := dput d (addr (fst c) + 16 + (p * fb - 0)) (firstn (Z.to_nat fb) data)) in *.
+    destruct (IH p bo1 (skipn (Z.to_nat fb) data) d1 Hc1) as (d' & R' & C' & F' & A'); auto; try nia.
+    + rewrite Forall_forall in *. intros q Hq. specialize (Fr q Hq). specialize (Hlt q Hq). lia.
+    + rewrite lenZ_skipn by nia. lia.
+    + exists d'. split; [exact R'|]. split; [exact C'|]. split.
+      * eapply frame_trans; [exact F1|exact F'| |]; intros y Hy; auto.
+        exists c. split; [left; reflexivity|exact Hy].
+      * intros x Hx. rewrite A' by auto. cbn [over_elems]. apply over_elems_ext. apply E1. exact Hx.
+Qed.
+
+(* ------------------------------------------------------------------ ADF_Write_Data: element loop on a node with storage *)
+Lemma phys_none cs : sizes_pos cs -> forall x, cap_of cs <= x -> phys cs x = None.
+Proof.
+  induction 1 as [|c r Hc Pr IH]; intros x Hx; [reflexivity|]. rewrite cap_of_cons in Hx. cbn [phys].
+  pose proof (sizes_pos_cap _ Pr). destruct (Z.ltb_spec x (csize c)); [lia|]. apply IH. lia.
+Qed.
+
+Lemma in_data_ext cs y : in_data cs y -> Forall (fun c => 0 < csize c) cs -> in_exts cs y.
+Proof.
+  intros (c & I & H) P. exists c. split; auto. unfold in_ext. pose proof (csize_addr c). unfold HDR in *. lia.
+Qed.
+
+Lemma elem_loop_w_ok h d cs ps (data : list Z) : Inv h d cs -> ready h cs -> dims_ok (h_dims h) = true ->
+  StronglySorted Z.lt ps -> Forall (fun p => 0 <= p < prodZ (h_dims h)) ps -> lenZ data = lenZ ps * esz (h_ty h) ->
+  exists d', elem_loop_w h cs ps data d = (Ok tt, d') /\ Inv h d' cs /\
+    (forall x, 0 <= x -> absb d' cs x = over_elems (absb d cs) ps (esz (h_ty h)) data x).
+Proof.
+  intros I (Ne & T & R) D Srt Rng Hd. pose proof I as (N & C & PD & Dv & Z0 & M). specialize (Z0 Ne).
+  set (fb := esz (h_ty h)) in *. rewrite total_bytes_unfold in T. fold fb in T.
+  assert (Rng' : Forall (fun p => 0 <= p /\ p * fb + fb <= cap_of cs) ps).
+  { eapply Forall_impl; [|exact Rng]. intros p Hp. cbn beta in Hp. split; [lia|nia]. }
+  unfold elem_loop_w. fold fb.
+  destruct cs as [|c [|c2 r]]; [congruence| |].
+  - rewrite N. change (lenZ [c]) with 1. cbn [Z.eqb Pos.eqb]. rewrite M.
+    inversion C as [|? ? Hc _]; subst. cbn [cap_of fold_right] in Rng'. rewrite Z.add_0_r in Rng'.
+    destruct ps as [|p0 pr].
+    { exists d. split; [reflexivity|]. split; [exact I|reflexivity]. }
+    pose proof Hc as (G1 & G2 & S1 & _). destruct (gp_nonneg _ G1) as (Hb & Ho & Ha). destruct (gp_nonneg _ G2) as (_ & _ & Ha2).
+    pose proof (csize_addr c) as Ecs. unfold cstart, cend, HDR in Ecs.
+    inversion Rng' as [|? ? [Q1 Q2] Rr]; subst. inversion Srt as [|? ? Sr Hlt]; subst.
+    pose proof (addr_unfold (fst c)) as Ea. assert (P60 : 2 ^ 44 + 2 ^ 44 < 2 ^ 60) by reflexivity.
+    unfold TAG_SIZE, DPS. rewrite adjust_ok by nia. cbn [bindO].
+    set (bo := pnorm (fst (fst c) * DBS + (snd (fst c) + 4 + 12 + p0 * fb))).
+    pose proof (pnorm_nonneg (fst (fst c) * DBS + (snd (fst c) + 4 + 12 + p0 * fb)) ltac:(nia)) as Nbo. fold bo in Nbo.
+    destruct (wsingle_ok c fb Z0 (p0 :: pr) p0 bo data d Hc) as (d' & R' & C' & F' & A'); auto; try lia.
+    + constructor; [lia|]. rewrite Forall_forall in *. intros q Hq. specialize (Rr q Hq). specialize (Hlt q Hq). lia.
+    + unfold bo. rewrite addr_pnorm. unfold cstart, HDR. lia.
+    + exists d'. split; [exact R'|]. split; [|exact A'].
+      unfold Inv. split; [exact N|]. split; [constructor; auto|]. split; [exact PD|]. split; [exact Dv|]. split; [auto|exact M].
+  - destruct M as [Tb TD]. pose proof (lenZ_nonneg r).
+    assert (L : lenZ (c :: c2 :: r) = lenZ r + 2) by (rewrite !lenZ_cons; ring).
+    destruct (Z.eqb_spec (h_n h) 1); [lia|].
+    destruct (wmulti_ok (c :: c2 :: r) fb Z0 Dv PD ps (mkLook c (c2 :: r) 0 (csize c)) data d C) as (d' & R' & C' & F' & A'); auto.
+    + exists []. cbn [l_cur l_rest l_past l_size app cap_of fold_right]. auto.
+    + cbn [l_past]. eapply Forall_impl; [|exact Rng']. intros p Hp. cbn beta in *. nia.
+    + exists d'. split; [exact R'|]. split; [|exact A'].
+      unfold Inv. split; [exact N|]. split; [exact C'|]. split; [exact PD|]. split; [exact Dv|]. split; [auto|].
+      split; [|exact TD].
+      apply (table_at_frame d d' _ _ (in_data (c :: c2 :: r)) Tb F'). intros x Hx Hin.
+      apply in_data_ext in Hin; [|apply (Forall_chunk_sizes d); auto]. destruct Hin as (c' & I' & Hx').
+      rewrite Forall_forall in TD. specialize (TD (ext c') (in_map ext _ _ I')).
+      unfold disj, text, ext, in_ext in *. cbn [fst snd] in *. lia.
+Qed.
+
+(* ------------------------------------------------------------------ ADF_Write_Data *)
+Lemma wdata_count_ok cs : sizes_pos cs -> forall total,
+  (total <= cap_of cs -> wdata_count cf cs total <= 0) /\ (cap_of cs < total -> wdata_count cf cs total = total - cap_of cs).
+Proof.
+  induction 1 as [|c r Hc Pr IH]; intros total.
+  - cbn [wdata_count cap_of fold_right]. split; intros; lia.
+  - cbn [wdata_count]. rewrite Hsigned, cap_of_cons. pose proof (sizes_pos_cap _ Pr). destruct (IH (total - csize c)) as [I1 I2].
+    destruct (Z.leb_spec (total - csize c) 0) as [Le|Gt].
+    + split; intros; lia.
+    + split; intros; [apply I1; lia|rewrite I2 by lia; ring].
+Qed.
+
+(* the logical bytes right after a chunk c' of zeros was appended for the range [cap, t) *)
+Lemma grown_abs d dg cs c' t : sizes_pos cs -> 0 < csize c' -> csize c' = t - cap_of cs ->
+  holds dg (cstart c' + HDR) (zeros (t - cap_of cs)) ->
+  (forall x a, 0 <= x -> phys cs x = Some a -> dget dg a = dget d a) ->
+  forall x, 0 <= x -> absb dg (cs ++ [c']) x = over (absb d cs) (cap_of cs) (zeros (t - cap_of cs)) x.
+Proof.
+  intros P Hc Ec Hz Fr x Hx. pose proof (sizes_pos_cap _ P) as Hcap. unfold over, absb. destruct (Z.ltb_spec x 0); [lia|].
+  rewrite lenZ_zeros by lia. rewrite zeros_nth.
+  destruct (Z.leb_spec (cap_of cs) x), (Z.ltb_spec x (cap_of cs + (t - cap_of cs))); cbn [andb].
+  - rewrite (phys_app cs c' [] x) by (auto; lia).
+    specialize (Hz (Z.to_nat (x - cap_of cs))). unfold zeros in Hz at 1. rewrite repeat_length in Hz.
+    rewrite zeros_nth in Hz. rewrite <- Hz by lia. f_equal. lia.
+  - rewrite (phys_post cs c' [] x) by (auto; lia). cbn [phys]. rewrite (phys_none cs P x) by lia. reflexivity.
+  - destruct (phys_some cs P x ltac:(lia)) as (a & Pa). rewrite (phys_app_l cs [c'] x a Pa), Pa. apply (Fr x a); auto.
+  - lia.
+Qed.
+
+Lemma absb_nil d x : absb d [] x = None.
+Proof. unfold absb. destruct (x <? 0); reflexivity. Qed.
+
+Lemma strided_finish hg dg csg ps (data : list Z) (Zf : Z -> option Z) :
+  Inv hg dg csg -> ready hg csg -> dims_ok (h_dims hg) = true ->
+  StronglySorted Z.lt ps -> Forall (fun p => 0 <= p < prodZ (h_dims hg)) ps -> lenZ data = lenZ ps * esz (h_ty hg) ->
+  (forall x, 0 <= x -> absb dg csg x = Zf x) ->
+  exists d', bindR (elem_loop_w hg csg ps data dg) (fun _ d5 => (Ok hg, d5)) = (Ok hg, d') /\ Inv hg d' csg /\
+    (forall x, 0 <= x -> absb d' csg x = over_elems Zf ps (esz (h_ty hg)) data x).
+Proof.
+  intros I R D S F Hd A. destruct (elem_loop_w_ok hg dg csg ps data I R D S F Hd) as (d' & R' & I' & A').
+  exists d'. rewrite R'. split; [reflexivity|]. split; [exact I'|].
+  intros x Hx. rewrite A' by auto. apply over_elems_ext. auto.
+Qed.
+
+Lemma write_strided_ok h d cs al sel ps (data : list Z) : Inv h d cs -> dims_ok (h_dims h) = true -> total_bytes h <> 0 ->
+  lenZ (h_dims h) <> 0 -> sel_positions h sel = Ok ps -> lenZ data = lenZ ps * esz (h_ty h) -> h_n h < 65535 ->
+  alloc_ok fa (mkSt h d) (WriteStrided sel data) al = true ->
+  exists h' d' cs', write_strided cf fa h d al sel data = (Ok h', d') /\ Inv h' d' cs' /\
+    h_ty h' = h_ty h /\ h_dims h' = h_dims h /\
+    lenZ cs' = (if lenZ cs =? 0 then 1 else if total_bytes h >? cap_of cs then lenZ cs + 1 else lenZ cs) /\
+    cap_of cs' = (if lenZ cs =? 0 then total_bytes h else if total_bytes h >? cap_of cs then total_bytes h else cap_of cs) /\
+    (forall x, 0 <= x -> absb d' cs' x =
+       over_elems (if (lenZ cs =? 0) || (total_bytes h >? cap_of cs)
+                   then over (absb d cs) (cap_of cs) (zeros (total_bytes h - cap_of cs)) else absb d cs)
+                  ps (esz (h_ty h)) data x).
+Proof.
+  intros I D T Rk SP Hd Hn AO. destruct (total_bounds h D T) as (Z0 & Tb & Tm).
+  destruct (sel_positions_facts _ _ _ D SP) as [Srt Rng].
+  unfold alloc_ok in AO. cbn [s_h s_d] in AO. rewrite (live_extents_inv _ _ _ I), (requests_unfold _ _ _ _ I) in AO by exact Logic.I.
+  pose proof I as (N & C & PD & Dv & _ & M).
+  set (t := total_bytes h) in *. set (fb := esz (h_ty h)) in *.
+  unfold write_strided. fold t fb. unfold bytes in *. rewrite SP. cbn [bindO].
+  destruct (Z.eqb_spec fb 0); [lia|]. destruct (Z.eqb_spec (lenZ (h_dims h)) 0); [lia|]. cbn [orb].
+  destruct (Z.eqb_spec (lenZ data) (lenZ ps * fb)); [|lia]. cbn [negb]. destruct (Z.eqb_spec t 0); [lia|].
+  destruct cs as [|c [|c2 r]].
+  - (* no data yet: a chunk of zeros, then the elements *)
+    change (lenZ []) with 0 in *. rewrite N in *. cbn [Z.eqb Z.geb Z.compare map app orb cap_of fold_right] in AO |- *.
+    destruct al as [|p al']; [discriminate|]. apply fresh_cons_inv in AO. destruct AO as [(Gp & Ap & _) _].
+    destruct (alloc_ok_step p al' (t + 20) d) as [R1 S1]; [unfold MAXSZ; lia|auto|].
+    unfold TAG_SIZE, DPS. replace (t + 4 + 4 + 12) with (t + 20) by ring. rewrite R1. cbn [bindR fst].
+    destruct (fresh_chunk (dclr d (addr p) (Z.to_nat (t + 20))) p t 0 t None Gp Ap Tb) as (d2 & R2 & C2 & Sz & H2 & _); try lia.
+    rewrite R2. cbn [bindR]. set (c := (p, pnorm (addr p + HDR + t))) in *.
+    set (h1 := mkHdr (h_ty h) (h_dims h) 1 p).
+    assert (I1 : Inv h1 d2 [c]) by (apply (inv_single (h_ty h) (h_dims h) d2 c); auto; rewrite Sz; auto).
+    assert (Rd : ready h1 [c]).
+    { split; [congruence|]. unfold total_bytes, h1. cbn [h_ty h_dims cap_of fold_right]. fold (total_bytes h). fold t. rewrite Sz. split; [lia|auto]. }
+    assert (Ag : forall x, 0 <= x -> absb d2 [c] x = over (absb d []) 0 (zeros (t - 0)) x).
+    { change [c] with ([] ++ [c]). apply (grown_abs d d2 [] c t); auto; try (constructor); cbn [cap_of fold_right]; try lia.
+      - rewrite Z.sub_0_r. rewrite Z.add_0_r in H2. exact H2.
+      - intros x a _ E. discriminate. }
+    replace (elem_loop_w h1 [] ps data d2) with (elem_loop_w h1 [c] ps data d2) by reflexivity.
+    destruct (strided_finish h1 d2 [c] ps data _ I1 Rd D Srt Rng Hd Ag) as (d' & R' & I' & A').
+    exists h1, d', [c]. split; [exact R'|]. split; [exact I'|].
+    cbn [h_ty h_dims cap_of fold_right]. rewrite Sz. change (lenZ [c]) with 1.
+    split; [reflexivity|]. split; [reflexivity|]. split; [reflexivity|]. split; [lia|]. exact A'.
+  - (* one chunk *)
+    change (lenZ [c]) with 1 in *. rewrite N in *. cbn [Z.eqb Pos.eqb Z.geb Z.compare Pos.compare Pos.compare_cont map app orb cap_of fold_right] in AO |- *.
+    rewrite Z.add_0_r in *. rewrite M. inversion C as [|? ? Hc _]; subst. inversion Dv as [|? ? Dvc _]; subst.
+    rewrite (one_chunk_size_ok d c Hc). cbn [bindO]. pose proof Hc as (_ & _ & Sc & _).
+    destruct (Z.gtb_spec t (csize c)) as [Grow|Fit].
+    + assert (WS : wspec (fun d2 p2 => write_data_chunk cf fa d2 p2 (t - csize c) 0 (t - csize c) (@None (list Z))) (t - csize c))
+        by (apply wspec_wdc; lia).
+      assert (Mt : (t - csize c) mod fb = 0).
+      { apply Z.mod_divide; [lia|]. apply Z.divide_sub_r; apply Z.mod_divide; auto; lia. }
+      destruct (grow1_ok (h_ty h) (h_dims h) al d c (t - csize c) _
+                  (fun es pt d4 => let h1 := mkHdr (h_ty h) (h_dims h) 2 pt in bindR (elem_loop_w h1 es ps data d4) (fun _ d5 => (Ok h1, d5)))
+                  Hc Z0 Dvc Mt ltac:(lia) WS AO)
+        as (p2 & pt & rest & d2 & d3 & d5 & Eal & Gp2 & Ap2 & RW & S12 & S23 & S35 & Dc & Dt1 & Dt2 & Ece & GT & I5 & Sz2).
+      unfold grow1_term in GT. rewrite GT. cbn zeta.
+      set (c2 := (p2, pnorm (addr p2 + HDR + (t - csize c)))) in *. set (h1 := mkHdr (h_ty h) (h_dims h) 2 pt) in *.
+      assert (Rd : ready h1 [c; c2]).
+      { split; [congruence|]. unfold total_bytes, h1. cbn [h_ty h_dims cap_of fold_right]. fold (total_bytes h). fold t. rewrite Sz2. split; [lia|auto]. }
+      destruct (fresh_chunk d2 p2 (t - csize c) 0 (t - csize c) None Gp2 Ap2) as (d3' & R3' & _ & _ & H3 & _); try lia.
+      rewrite RW in R3'. inversion R3'; subst d3'. clear R3'.
+      pose proof (csize_addr c) as Ecs. unfold disj, ext, text in Dc, Dt1, Dt2. cbn [fst snd] in Dc, Dt1, Dt2.
+      assert (Es2 : cstart c2 = addr p2) by reflexivity.
+      assert (Ag : forall x, 0 <= x -> absb d5 [c; c2] x = over (absb d [c]) (csize c) (zeros (t - csize c)) x).
+      { change [c; c2] with ([c] ++ [c2]). intros x Hx.
+        replace (csize c) with (cap_of [c]) at 1 2 by (cbn [cap_of fold_right]; lia).
+        apply (grown_abs d d5 [c] c2 t); auto; try (cbn [cap_of fold_right]; lia).
+        - constructor; [lia|constructor].
+        - intros i Hi. unfold zeros in Hi. rewrite repeat_length in Hi. cbn [cap_of fold_right] in Hi. rewrite S35.
+          + cbn [cap_of fold_right]. rewrite Z.add_0_r, Es2. rewrite Z.add_0_r in H3. apply H3. unfold zeros. rewrite repeat_length. lia.
+          + unfold HDR in *. lia.
+        - intros y a Hy E. cbn [phys] in E. destruct (Z.ltb_spec y (csize c)); [|discriminate]. inversion E; subst a.
+          unfold HDR in *. rewrite S35, S23, S12; auto; lia. }
+      destruct (strided_finish h1 d5 [c; c2] ps data _ I5 Rd D Srt Rng Hd Ag) as (d' & R' & I' & A').
+      exists h1, d', [c; c2]. split; [exact R'|]. split; [exact I'|].
+      cbn [h_ty h_dims cap_of fold_right]. rewrite Sz2. change (lenZ [c; c2]) with 2.
+      split; [reflexivity|]. split; [reflexivity|]. split; [reflexivity|]. split; [lia|]. exact A'.
+    + assert (Rd : ready h [c]).
+      { split; [congruence|]. fold t. cbn [cap_of fold_right]. split; [lia|auto]. }
+      replace (elem_loop_w h [] ps data d) with (elem_loop_w h [c] ps data d).
+      2:{ unfold elem_loop_w. rewrite N. reflexivity. }
+      destruct (strided_finish h d [c] ps data (absb d [c]) I Rd D Srt Rng Hd ltac:(auto)) as (d' & R' & I' & A').
+      exists h, d', [c]. split; [exact R'|]. split; [exact I'|]. cbn [cap_of fold_right].
+      split; [reflexivity|]. split; [reflexivity|]. split; [reflexivity|]. split; [lia|]. exact A'.
+  - (* several chunks *)
+    destruct M as [Tb0 TD]. pose proof (lenZ_nonneg r) as Hr.
+    assert (L : lenZ (c :: c2 :: r) = lenZ r + 2) by (rewrite !lenZ_cons; ring).
+    remember (c :: c2 :: r) as cs eqn:Ecs0.
+    replace (h_n h >=? 2) with true in AO by (symmetry; apply Z.geb_le; lia).
+    replace (h_n h =? 0) with false in AO by (symmetry; apply Z.eqb_neq; lia).
+    replace (h_n h =? 1) with false in AO by (symmetry; apply Z.eqb_neq; lia).
+    destruct (Z.eqb_spec (h_n h) 0); [lia|]. destruct (Z.eqb_spec (h_n h) 1); [lia|].
+    rewrite (read_table_ok d (h_dc h) cs) by (auto; lia). cbn [bindO].
+    replace (firstn (Z.to_nat (h_n h)) cs) with cs by (rewrite N; symmetry; apply firstn_lenZ).
+    assert (Psz : sizes_pos cs) by (apply (Forall_chunk_sizes d); auto).
+    pose proof (sizes_pos_cap _ Psz) as Pc. destruct (wdata_count_ok cs Psz t) as [W1 W2].
+    rewrite L. destruct (Z.eqb_spec (lenZ r + 2) 0); [lia|]. cbn [orb].
+    destruct (Z.gtb_spec t (cap_of cs)) as [Grow|Fit].
+    + rewrite W2 by lia. destruct (Z.gtb_spec (t - cap_of cs) 0); [|lia]. rewrite Hsigned.
+      assert (Mt : (t - cap_of cs) mod fb = 0).
+      { apply Z.mod_divide; [lia|]. apply Z.divide_sub_r; [apply Z.mod_divide; auto; lia|apply divide_cap; auto]. }
+      assert (WS : wspec (fun d2 p2 => write_data_chunk cf fa d2 p2 (t - cap_of cs) 0 (t - cap_of cs) (@None (list Z))) (t - cap_of cs))
+        by (apply wspec_wdc; lia).
+      destruct (grown_ok al d h cs (t - cap_of cs) _
+                  (fun cs' pt d6 => let h1 := mkHdr (h_ty h) (h_dims h) (h_n h + 1) pt in
+                                    bindR (elem_loop_w h1 cs' ps data d6) (fun _ d7 => (Ok h1, d7)))
+                  N ltac:(lia) ltac:(lia) C PD Tb0 TD Z0 Dv Mt ltac:(lia) WS)
+        as (p & pt & rest & d4 & d5 & d6 & Eal & Gp & Ap & RW & Sz & F14 & S45 & S56 & Dc' & Do' & Dtc' & Ece & GT & I6).
+      { rewrite <- N. unfold DPS in AO. exact AO. }
+      unfold grown_term in GT. rewrite GT. cbn zeta.
+      set (c' := (p, pnorm (addr p + HDR + (t - cap_of cs)))) in *. set (h1 := mkHdr (h_ty h) (h_dims h) (h_n h + 1) pt) in *.
+      assert (Rd : ready h1 (cs ++ [c'])).
+      { split; [destruct cs; discriminate|]. unfold total_bytes, h1. cbn [h_ty h_dims]. fold (total_bytes h). fold t.
+        rewrite cap_of_app. cbn [cap_of fold_right]. rewrite Sz. split; [lia|auto]. }
+      destruct (fresh_chunk d4 p (t - cap_of cs) 0 (t - cap_of cs) None Gp Ap) as (d5' & R5' & _ & _ & H5 & _); try lia.
+      rewrite RW in R5'. inversion R5'; subst d5'. clear R5'.
+      assert (Es' : cstart c' = addr p) by reflexivity.
+      assert (Ag : forall x, 0 <= x -> absb d6 (cs ++ [c']) x = over (absb d cs) (cap_of cs) (zeros (t - cap_of cs)) x).
+      { apply (grown_abs d d6 cs c' t); auto; try lia.
+        - intros i Hi. unfold zeros in Hi. rewrite repeat_length in Hi. rewrite S56.
+          + rewrite Es'. rewrite Z.add_0_r in H5. apply H5. unfold zeros. rewrite repeat_length. lia.
+          + unfold disj, ext, text in Do'. cbn [fst snd] in Do'. unfold HDR in *. lia.
+        - intros y a Hy E. destruct (phys_in cs y a Psz Hy E) as (c0 & I0 & B0).
+          rewrite Forall_forall in Dc', TD, Dtc'. specialize (Dc' (ext c0) (in_map ext _ _ I0)).
+          specialize (TD (ext c0) (in_map ext _ _ I0)). specialize (Dtc' (ext c0) (in_map ext _ _ I0)).
+          unfold disj, ext, text in *. cbn [fst snd] in *. unfold HDR in *.
+          rewrite S56, S45, F14; auto; lia. }
+      destruct (strided_finish h1 d6 (cs ++ [c']) ps data _ I6 Rd D Srt Rng Hd Ag) as (d' & R' & I' & A').
+      exists h1, d', (cs ++ [c']). split; [exact R'|]. split; [exact I'|].
+      cbn [h_ty h_dims]. rewrite lenZ_snoc, cap_of_app. cbn [cap_of fold_right]. rewrite Sz, L.
+      split; [reflexivity|]. split; [reflexivity|]. split; [reflexivity|]. split; [lia|]. exact A'.
+    + specialize (W1 ltac:(lia)). destruct (Z.gtb_spec (wdata_count cf cs t) 0); [lia|].
+      assert (Rd : ready h cs).
+      { split; [destruct cs; discriminate|]. fold t. split; [lia|auto]. }
+      destruct (strided_finish h d cs ps data (absb d cs) I Rd D Srt Rng Hd ltac:(auto)) as (d' & R' & I' & A').
+      exists h, d', cs. split; [exact R'|]. split; [exact I'|]. rewrite L.
+      split; [reflexivity|]. split; [reflexivity|]. split; [reflexivity|]. split; [reflexivity|]. exact A'.
+Qed.
